@@ -17,6 +17,7 @@ import (
 
 	"github.com/tdewolff/canvas"
 	"github.com/tdewolff/canvas/renderers/pdf"
+	"github.com/tdewolff/canvas/text"
 
 	"verif/internal/fontread"
 	"verif/internal/fw"
@@ -230,7 +231,7 @@ func familyReuse(name string, pairStrings []string) fw.Family {
 		Name: name, N: oracle.Prod(radices...),
 		Desc: func(i int64) string {
 			a, b := decode(i)
-			return "with one font object loaded once: first " + a.String() + "; then " + b.String() + " (the second document is checked)"
+			return "with one font object loaded once: first " + a.String() + fmt.Sprintf("; then Face(12pt).ToPath(%q)", b.steps[0].s) + "; then " + b.String() + " (ToPath and the second document are checked)"
 		},
 		Check: func(i int64, r *fw.R) {
 			a, b := decode(i)
@@ -240,6 +241,10 @@ func familyReuse(name string, pairStrings []string) fw.Family {
 				return
 			}
 			r.Transitions++
+			// converting text to paths with the same font object still works after a PDF was written
+			src := fontMenu[b.steps[0].font].load()
+			face := cf[b.steps[0].font].Face(faceVariants[0].size, canvas.Black)
+			toPathCheck(r, src, face, faceVariants[0], b.steps[0].s, face.Glyphs(b.steps[0].s), ":after-a-pdf-was-written-with-the-font-object")
 			checkDoc(b, cf, r, name)
 		},
 	}
@@ -397,60 +402,9 @@ func familyToPath(name string, strs []string) fw.Family {
 				report(r, "face-scale", fmt.Sprintf("Face(%g pt): Size %v mm, MmPerEm %v; a point is 25.4/72 mm and the font has %g units per em", v.size, face.Size, face.MmPerEm, upem))
 				return
 			}
-			// expected outlines
-			var want []fullSeg
-			var wantSp []oracle.Subpath
-			x, y := int(v.xoff), int(v.yoff)
-			sum := 0
-			kerned := false
-			for _, g := range glyphs {
-				segs, err := src.exactOutline(int(g.ID))
-				if err != nil {
-					r.Outcome("skipped:" + err.Error())
-					return
-				}
-				placeOutline(segs, affine{f, 0, 0, f, f * float64(x+int(g.XOffset)), f * float64(y+int(g.YOffset))}, &want, &wantSp)
-				x += int(g.XAdvance)
-				y += int(g.YAdvance)
-				sum += int(g.XAdvance)
-				if a, _ := src.fr.Advance(int(g.ID)); a != int(g.XAdvance) {
-					kerned = true
-				}
-			}
-			if kerned {
-				r.Outcome("layout:has-adjusted-advance")
-			}
-			if len([]rune(s)) != len(glyphs) {
-				r.Outcome("layout:ligature-or-decomposition")
-			}
-			p, adv, err := face.ToPath(s)
-			r.Transitions++
-			if err != nil {
-				report(r, "topath-error", fmt.Sprintf("ToPath: %v", err))
+			_, sum, ok := toPathCheck(r, src, face, v, s, glyphs, "")
+			if !ok {
 				return
-			}
-			var got []fullSeg
-			var gotSp []oracle.Subpath
-			if err := canvasSegs(p.Data(), affine{1, 0, 0, 1, 0, 0}, &got, &gotSp); err != nil {
-				report(r, "topath-data", err.Error())
-				return
-			}
-			tol := 1e-6 * face.Size
-			dist, how := outlineDistance(want, got, wantSp, gotSp, tol)
-			r.Outcome("topath:" + how)
-			r.Max("ToPath distance / (1e-6 size)", dist/tol)
-			if dist > tol {
-				report(r, "topath-outline", fmt.Sprintf("ToPath(%q) is %.3g mm (%.3g of the size) away from the glyph outlines of the source font placed at the cumulative advances (%s); laid-out glyphs %v; ToPath = %s", s, dist, dist/face.Size, how, glyphs, clipS(p.String(), 300)))
-			}
-			wantAdv := f * float64(x-int(v.xoff))
-			if relErr(adv, f*float64(x)) > 1e-9 && relErr(adv, wantAdv) > 1e-9 {
-				report(r, "topath-advance", fmt.Sprintf("ToPath(%q) returns the advance %v mm; the laid-out advances sum to %d units = %v mm (%v mm with the face's XOffset)", s, adv, x-int(v.xoff), wantAdv, f*float64(x)))
-			} else if v.xoff != 0 {
-				if relErr(adv, wantAdv) <= 1e-9 {
-					r.Outcome("topath-advance:excludes-XOffset")
-				} else {
-					r.Outcome("topath-advance:includes-XOffset")
-				}
 			}
 			// widths
 			tw := face.TextWidth(s)
@@ -480,6 +434,67 @@ func familyToPath(name string, strs []string) fw.Family {
 			r.Validated++
 		},
 	}
+}
+
+// toPathCheck compares FontFace.ToPath(s) with the exact outlines of the laid-out glyphs placed
+// at the cumulative advances. It returns the pen position after the last glyph and the sum of
+// the horizontal advances (font units); ok is false if the case was abandoned.
+func toPathCheck(r *fw.R, src *fontSrc, face *canvas.FontFace, v faceVariant, s string, glyphs []text.Glyph, suffix string) (x, sum int, ok bool) {
+	f := face.Size / float64(src.fr.Upem)
+	var want []fullSeg
+	var wantSp []oracle.Subpath
+	x, y := int(v.xoff), int(v.yoff)
+	kerned := false
+	for _, g := range glyphs {
+		segs, err := src.exactOutline(int(g.ID))
+		if err != nil {
+			r.Outcome("skipped:" + err.Error())
+			return 0, 0, false
+		}
+		placeOutline(segs, affine{f, 0, 0, f, f * float64(x+int(g.XOffset)), f * float64(y+int(g.YOffset))}, &want, &wantSp)
+		x += int(g.XAdvance)
+		y += int(g.YAdvance)
+		sum += int(g.XAdvance)
+		if a, _ := src.fr.Advance(int(g.ID)); a != int(g.XAdvance) {
+			kerned = true
+		}
+	}
+	if kerned {
+		r.Outcome("layout:has-adjusted-advance")
+	}
+	if len([]rune(s)) != len(glyphs) {
+		r.Outcome("layout:ligature-or-decomposition")
+	}
+	p, adv, err := face.ToPath(s)
+	r.Transitions++
+	if err != nil {
+		report(r, "topath-error"+suffix, fmt.Sprintf("ToPath(%q): %v", s, err))
+		return 0, 0, false
+	}
+	var got []fullSeg
+	var gotSp []oracle.Subpath
+	if err := canvasSegs(p.Data(), affine{1, 0, 0, 1, 0, 0}, &got, &gotSp); err != nil {
+		report(r, "topath-data"+suffix, err.Error())
+		return 0, 0, false
+	}
+	tol := 1e-6 * face.Size
+	dist, how := outlineDistance(want, got, wantSp, gotSp, tol)
+	r.Outcome("topath:" + how)
+	r.Max("ToPath distance / (1e-6 size)", dist/tol)
+	if dist > tol {
+		report(r, "topath-outline"+suffix, fmt.Sprintf("ToPath(%q) is %.3g mm (%.3g of the size) away from the glyph outlines of the source font placed at the cumulative advances (%s); laid-out glyphs %v; ToPath = %s", s, dist, dist/face.Size, how, glyphs, clipS(p.String(), 300)))
+	}
+	wantAdv := f * float64(x-int(v.xoff))
+	if relErr(adv, f*float64(x)) > 1e-9 && relErr(adv, wantAdv) > 1e-9 {
+		report(r, "topath-advance"+suffix, fmt.Sprintf("ToPath(%q) returns the advance %v mm; the laid-out advances sum to %d units = %v mm (%v mm with the face's XOffset)", s, adv, x-int(v.xoff), wantAdv, f*float64(x)))
+	} else if v.xoff != 0 {
+		if relErr(adv, wantAdv) <= 1e-9 {
+			r.Outcome("topath-advance:excludes-XOffset")
+		} else {
+			r.Outcome("topath-advance:includes-XOffset")
+		}
+	}
+	return x, sum, true
 }
 
 // ---------------------------------------------------------------------------------------------
